@@ -532,6 +532,17 @@ func jsonDecode(r io.Reader, pending *[]byte, useNumber, disallow bool, v interf
 	obj, ok := jsonParse(data, useNumber, disallow)
 	if !ok {
 		*pending = nil
+		// the classes of error the real decoder reports: a syntax / type error, io.EOF when the input holds no value
+		// at all (empty or white space only), io.ErrUnexpectedEOF when a value is cut short
+		if len(data) == 0 {
+			return io.EOF
+		}
+		switch Choose(3) {
+		case 1:
+			return io.EOF
+		case 2:
+			return io.ErrUnexpectedEOF
+		}
 		return errJSON
 	}
 	k := len(data)
